@@ -100,12 +100,35 @@ class CallMixin:
                 return self.call_extern(fv, args, kwargs, node)
             if kind == 'namedtype':
                 return self.construct_named(fv.py[1], args, kwargs)
+            if kind == 'pktfields_m':
+                pkt, meth = fv.py[1], fv.py[2]
+                if meth == 'get' and args:
+                    i, layer, fn = self.pkt_field_named(pkt, args[0], 'fields.get')
+                    ft = self.pkt_schema(layer).fields[fn]
+                    v = self.read_heap(self.pkt_layer_ref(pkt, i), ('pkt:' + layer, fn), ft)
+                    if len(args) > 1 and args[1].t is not TNone:
+                        raise Unsupported('fields.get with a default other than None')
+                    return v
+                raise Unsupported('packet fields method %s' % meth)
+            if kind == 'extobj':
+                hook = self.spec.callbacks.get('extobj_call')
+                r = hook(self, fv, args, kwargs) if hook is not None else None
+                if r is None:
+                    raise Unsupported('call of %s' % (fv.py[1:],))
+                return r
             raise Unsupported('call of %s' % kind)
         if isinstance(fv.t, TOpt) and fv.t.inner is TFuncT:
             self.need(z3.Not(fv.t.is_none(fv.z)), 'TypeError')
             return self.call_callback(V(TFuncT, fv.t.val(fv.z)), args, node)
         if fv.t is TFuncT:
             return self.call_callback(fv, args, node)
+        if isinstance(fv.t, TRef):
+            # an instance of a repository class with __call__
+            sc = self.spec.schemas.get(fv.t.cls)
+            if sc is not None and sc.pyclass is not None:
+                found = self.prog.find_method(sc.pyclass[0], sc.pyclass[1], '__call__')
+                if found is not None:
+                    return self.call_repo(found[0].module, found[0], found[1], [fv] + args, kwargs, node)
         raise Unsupported('call of value of type %s' % fv.t)
 
     # -------------------------------------------------------------- repo code
@@ -278,7 +301,7 @@ class CallMixin:
             else:
                 take = self.branch(z3.And(w, z3.Bool(fresh_name('raises_' + exc.replace('.', '_')))))
             if take:
-                self.apply_modifies(rs.modifies if rs.modifies is not None else fs.modifies)
+                self.apply_modifies(rs.modifies if rs.modifies is not None else (case or {}).get('modifies', fs.modifies))
                 for c in list(rs.ensures) + ([] if fs.no_inv_ensures else cinvs):
                     self.assume(truthy(self.spec_eval(c.node, env, old_state=pre, old_locals=pre_locals)))
                 ev = ExcVal(exc)
@@ -287,7 +310,7 @@ class CallMixin:
                 raise PyExc(ev)
         # normal outcome
         heap_before = dict(self.st.heap)
-        self.apply_modifies(fs.modifies)
+        self.apply_modifies((case or {}).get('modifies', fs.modifies))
         if fs.d.get('modifies_self_only') and 'self' in bound:
             # object-granular frame: of the fields named, only those of `self` may have changed
             sz = bound['self'].z
@@ -324,6 +347,11 @@ class CallMixin:
                         ok = False
                     continue
                 if ts == 'AnyPkt':
+                    continue
+                if ts.startswith('Class['):
+                    # a repository class passed as a value (e.g. a block data class used as an index key)
+                    if not (is_py(v, 'class') and v.py[1] == ts[6:-1]):
+                        ok = False
                     continue
                 t = parse_type(ts)
                 if isinstance(t, TPkt):
